@@ -280,6 +280,11 @@ func (s *VerticalFilterReader) hitExpr(expr influxql.Expr) bool {
 		case influxql.OR:
 			return s.hitExpr(n.LHS) || s.hitExpr(n.RHS)
 		case influxql.MATCHPHRASE:
+			// a field without an entry in splitMap has no filter here: unknown, the block may match
+			// (as LineFilterReader.hitExpr answers); s.hashes is keyed by the literal only
+			if _, ok := s.splitMap[n.LHS.(*influxql.VarRef).Val]; !ok {
+				return true
+			}
 			val := n.RHS.(*influxql.StringLiteral).Val
 			hashValues := s.hashes[val]
 			isExist := false
